@@ -108,6 +108,7 @@ class State:
         self.out: list[Any] = []  # replies the peer has produced, not yet delivered
         self.scripts = scripts
         self.cancelled: str | None = None
+        self.cancel_took_effect: bool | None = None
         self.tasks: dict[str, asyncio.Task[Any]] = {}
         self.tx_count: dict[int, int] = {}
 
@@ -167,7 +168,12 @@ class Canceller:
                     st.cancelled = v
                     st.log.append(("cancel", v))
 
-                acts.append(Action(f"cancel:{v}", [t.cancel], pre=mark))
+                def request_cancel(t: Any = t) -> None:
+                    # Task.cancel() returns False when the task has completed by now (its last step ran earlier in this very
+                    # iteration): then nothing was cancelled; True means the coroutine gets CancelledError at its current await
+                    st.cancel_took_effect = bool(t.cancel())
+
+                acts.append(Action(f"cancel:{v}", [request_cancel], pre=mark))
         return acts
 
 
@@ -258,6 +264,7 @@ def observe(box: dict[str, Any], run: Run) -> dict[str, Any]:
         "log": list(st.log),
         "results": {k: list(v) for k, v in box["results"].items()},
         "cancelled": st.cancelled,
+        "cancel_took_effect": st.cancel_took_effect,
         "mutex_locked": box["ecu"].mutex.locked(),
         # what each reply object names as its request once every caller has been served
         "late_triggers": [(n, d, getattr(getattr(r, "trigger_request", None), "pdu", b"").hex()) for n, d, r in box.get("replies", [])],
@@ -343,6 +350,17 @@ def judge(item: tuple[Any, ...], obs: dict[str, Any], choices: list[int], res: R
                 elif pdu[0] not in (0x62, 0x7F):
                     res.violate(f"C05|foreign-reply|other-service|to={_role(name)}", f"caller {name} got {pdu.hex()}", rp)
                     return
+    # a caller whose cancellation took effect (Task.cancel() returned True) gets CancelledError at the await it was suspended at:
+    # its call neither returns a reply nor keeps polling for one
+    if obs["cancelled"] and obs.get("cancel_took_effect") and obs["cancelled"] in obs["results"]:
+        rs = obs["results"][obs["cancelled"]]
+        if not rs or rs[-1][0] != "cancelled":
+            res.violate(
+                f"C05|cancellation-swallowed|ended={'nothing' if not rs else rs[-1][0]}",
+                f"caller {obs['cancelled']} was cancelled (Task.cancel() returned True) but its call ended with {rs[-1] if rs else None} instead of CancelledError",
+                rp,
+            )
+            return
     for n, d, trig in obs.get("late_triggers", []):
         if trig != f"22{d:04x}":
             res.violate(
@@ -381,6 +399,8 @@ def run_item(work: tuple[Any, ...]) -> Result:
             res.count("execs_with_timeout")
         if obs["cancelled"]:
             res.count("execs_with_cancel")
+            if obs.get("cancel_took_effect"):
+                res.count("execs_with_effective_cancel")
         if _contended(obs["log"]):
             res.count("execs_with_contention")
         if getattr(run, "capped", False):
